@@ -80,7 +80,29 @@ func c24QueueHash(core, i int) types.AuthorizerHash {
 	return h
 }
 
+// c24Qv selects the posterior queue contents used by the current case: 0 = the base queue, v > 0 = the
+// base queue rotated (index i holds the base entry i+1 resp. i+40), so the entry selected by one and the
+// same slot differs between variants.
+var c24Qv int
+
 func c24Queues() types.AuthQueues {
+	base := c24QueuesBase()
+	rot := map[int]int{0: 0, 1: 1, 2: 40}[c24Qv]
+	if rot == 0 {
+		return base
+	}
+	out := make(types.AuthQueues, c24C)
+	for c := range base {
+		q := make(types.AuthQueue, c24Q)
+		for i := range q {
+			q[i] = base[c][(i+rot)%c24Q]
+		}
+		out[c] = q
+	}
+	return out
+}
+
+func c24QueuesBase() types.AuthQueues {
 	qs := make(types.AuthQueues, c24C)
 	for c := 0; c < c24C; c++ {
 		q := make(types.AuthQueue, c24Q)
@@ -198,7 +220,9 @@ type c24Case struct {
 	P     [2]c24Pool `json:"p"`
 	G     [2]int     `json:"g"`
 	Slot  uint32     `json:"slot"`
-	Desc  bool       `json:"desc,omitempty"` // guarantees listed core 1 first
+	Desc  bool       `json:"desc,omitempty"`  // guarantees listed core 1 first
+	Cross bool       `json:"cross,omitempty"` // case of the cross-call pass (violation key says so)
+	Qv    int        `json:"qv,omitempty"`    // posterior queue variant (0 base, 1 rotated by 1, 2 rotated by 40)
 	Init  [2]c24Pool `json:"init"`
 	Steps [][3]int   `json:"steps,omitempty"` // chain: (g0, g1, slot offset k); slot = 80*depth + k
 }
@@ -307,6 +331,8 @@ func c24Commit(cs *blockchain.ChainState) {
 var c24PriorMutated int
 
 func c24RunSingle(r *vlib.Run, c c24Case) string {
+	c24Qv = c.Qv
+	defer func() { c24Qv = 0 }()
 	cs := c24Reset()
 	prior := types.AuthPools{c.P[0].build(), c.P[1].build()}
 	snap := [2][]types.AuthorizerHash{append([]types.AuthorizerHash(nil), prior[0]...), append([]types.AuthorizerHash(nil), prior[1]...)}
@@ -329,6 +355,9 @@ func c24RunSingle(r *vlib.Run, c c24Case) string {
 		}
 		want := c24Ref(c.P[core].hashes(), used, qs[core][int(c.Slot)%c24Q])
 		key := c24Key(c.P[core], c.G[core])
+		if c.Cross {
+			key = fmt.Sprintf("cross-call,queue-variant=%d", c.Qv)
+		}
 		trim := len(c.P[core].L)+1-len(used) > c24O
 		r.Class(fmt.Sprintf("%s trimmed=%v", c24PoolClass(c.P[core], c.G[core]), trim && len(want) == c24O))
 		switch {
@@ -489,6 +518,29 @@ func TestVerif_C24(t *testing.T) {
 									r.Sample(c)
 								}
 							}
+						}
+					}
+				}
+			}
+		}
+	}
+
+	// ---- cross-call pass: state kept between calls (e.g. keyed by the slot alone) ----
+	// For every slot 0..160 four transitions run back to back in this process: queue variant 0, 1, 0, 2
+	// at the SAME slot (sibling blocks with different posterior queues, then the same queue again), and
+	// the slot loop gives different slot & same queue; each result is compared with the reference.
+	for _, p0 := range small {
+		for _, p1 := range small {
+			for _, g0 := range c24Guar {
+				for _, g1 := range c24Guar {
+					idx++
+					if !r.Mine(idx) {
+						continue
+					}
+					for sl := 0; sl < slots; sl++ {
+						for _, qv := range []int{0, 1, 0, 2} {
+							r.Space(1)
+							c24RunSingle(r, c24Case{Mode: "single", P: [2]c24Pool{p0, p1}, G: [2]int{g0, g1}, Slot: uint32(sl), Qv: qv, Cross: true})
 						}
 					}
 				}
